@@ -40,10 +40,24 @@ def rbytes(rng, n):
     return bytes(rng.getrandbits(8) for _ in range(n))
 
 
+class Cfg:
+    """the slack threshold the verifier configured and how: 'default' (60),
+    'global' (functions.flags['ts_threshold']), 'per-run' (additional_flags
+    of run_script over witness + lock; the witnesses here only push data)"""
+    slack = 60
+    mode = 'default'
+
+
 def auth(scripts, cache):
     functions = env.mods()[0]
     try:
         ss = [bytes(s) for s in scripts]
+        if Cfg.mode == 'per-run':
+            _, stack, _ = functions.run_script(
+                b''.join(ss), dict(cache),
+                additional_flags={'ts_threshold': Cfg.slack},
+                **env.roomy_limits(*ss))
+            return list(stack.deque) == [b'\xff']
         return functions.run_auth_scripts(ss, dict(cache),
                                           **env.roomy_limits(*ss))
     except BaseException as e:
@@ -76,8 +90,10 @@ def scenario(ctx, rng, j):
     timeout = rng.choice((0, 1, 60, 86400, 10**6))
     deadline = NOW0 + timeout
     t = deadline + rng.choice((-1, 0, 1, 1, 5000))
-    now = rng.choice((t - 61, t - 60, t - 59, t, t, t + 10**6))
-    in_time = t >= deadline and t - now < 60
+    sl = Cfg.slack
+    now = rng.choice((t - sl - 1, t - sl, t - sl + 1, t, t, t + 10**6,
+                      t - 61, t - 60, t - 59))
+    in_time = t >= deadline and t - now < sl
     tweak = functions.clamp_scalar(rbytes(rng, 32), rng.random() < 0.5)
     T = functions.derive_point_from_scalar(tweak)
     wrong_tweak = functions.clamp_scalar(rbytes(rng, 32))
@@ -139,7 +155,8 @@ def scenario(ctx, rng, j):
                           f'{t - deadline}, t-now={t - now})',
                           {'name': name, 'lock': bytes(lock),
                            'witness': bytes(wit), 'fields': flds, 't': t,
-                           'now': now, 'want': want}, want, repr(got)[:80])
+                           'now': now, 'want': want, 'slack': Cfg.slack,
+                           'mode': Cfg.mode}, want, repr(got)[:80])
         elif nontrivial:
             ctx.mark_nontrivial(dg(name, bytes(lock), bytes(wit), t, now))
 
@@ -302,10 +319,21 @@ def run_shard(spec, ctx):
         if ext:
             import tapescript
             tapescript.add_signature_extension(env.rewriting_extension)
+        # a third of the scenarios under a slack threshold the verifier
+        # configured, for the process or for the single run
+        Cfg.slack, Cfg.mode = 60, 'default'
+        if j % 3 == 2:
+            Cfg.slack = (5, 10, 600, 100000)[(j // 3) % 4]
+            Cfg.mode = ('global', 'per-run')[(j // 12) % 2]
+        ctx.tab('slack_configuration', f'{Cfg.mode}:{Cfg.slack}')
+        gf = dict(env.REGISTERS_OFF if off else {})
+        if Cfg.mode == 'global':
+            gf['ts_threshold'] = Cfg.slack
         try:
-            with env.global_flags(env.REGISTERS_OFF if off else {}):
+            with env.global_flags(gf):
                 scenario(ctx, ctx.rng(j), j)
         finally:
+            Cfg.slack, Cfg.mode = 60, 'default'
             if ext:
                 tapescript.reset_signature_extensions()
     env.Clock.now = env.NOW0
@@ -342,8 +370,12 @@ def replay(case, ctx):
     if 'lock' not in case:
         return
     env.Clock.now = case['now']
-    got = auth([case['witness'], case['lock']],
-               {**case['fields'], 'timestamp': case['t']})
+    Cfg.slack, Cfg.mode = case.get('slack', 60), case.get('mode', 'default')
+    with env.global_flags({'ts_threshold': Cfg.slack}
+                          if Cfg.mode == 'global' else {}):
+        got = auth([case['witness'], case['lock']],
+                   {**case['fields'], 'timestamp': case['t']})
+    Cfg.slack, Cfg.mode = 60, 'default'
     env.Clock.now = env.NOW0
     if case['want'] is not None and (got is True) != case['want']:
         ctx.violation(('tlc-accepts:' if got is True else 'tlc-rejects:')
